@@ -38,6 +38,14 @@ from ..util import (
     try_protecting,
 )
 
+META = {
+    "text": "Language inclusion both ways between the version regex (under the call parse_version really uses) and canonical MAJOR.MINOR.PATCH, decided on the product "
+    "automaton with a witness string; gate returns normally only under major/minor equality (guard evaluated on all 729 pairs of version triples over {0,1,2}); "
+    "absent / undecodable / malformed inputs converted to ProtocolVersionError; on the pipe, HTTP-unary and HTTP-stream-init paths the gate dominates dispatch, is "
+    "skipped exactly for 'no declared version' or '__describe__', reads PROTOCOL_VERSION_KEY, and its error maps to an error stream / HTTP 400.",
+    "technique": "static: regex-language automata (inclusion with witness) + CFG dominance + guard evaluation + handler coverage",
+}
+
 REF = r"(0|[1-9][0-9]*)\.(0|[1-9][0-9]*)\.(0|[1-9][0-9]*)"
 PARSE = "vgi_rpc/metadata.py:parse_version"
 GATE = "vgi_rpc/rpc/_server.py:RpcServer._check_protocol_version"
